@@ -80,7 +80,7 @@ for _tag, _heading, _value, _clause, _exc in (
         schema=schema, fragment={"iter": "enumerate(row[1:])"}, make_env=_env_cell(_heading, _value),
         call_stubs={"float": (lambda it, v: v)},
         raises=({_exc: "True"} if _exc else {}), raises_props=["C16", "C18"],
-        ensures=([("C16.the_cell_goes_to_the_field_its_heading_names_and_nowhere_else", _clause)] if _clause else []),
+        ensures=([("C16+C12.the_cell_goes_to_the_field_its_heading_names_and_nowhere_else", _clause)] if _clause else []),
         defined_props=["C16", "C18"])
 
 
@@ -209,3 +209,34 @@ CONTRACTS["programs:ProgramSet._write_targeting#one_program"] = dict(
              ("C16.targeted_populations_and_compartments_are_marked_y_and_all_others_n", "sheet.CELLS[4, 2] == 'N' and sheet.CELLS[4, 3] == 'Y' and sheet.CELLS[4, 5] == 'Y' and sheet.CELLS[4, 6] == 'N' and sheet.CELLS[4, 7] == 'Y'"),
              ("C16.one_cell_per_listed_population_and_compartment_and_the_next_program_goes_on_the_next_row", "len(sheet.CELLS) == 7 and row == 5")],
     defined_props=["C16"])
+
+
+def _replay_zero_outcome(model, contract):
+    """replay END TO END: in the tb_simple program book one program's outcome (and one baseline) is set to exactly 0, the book is written and read back"""
+    import logging
+    import warnings
+
+    import atomica as at
+
+    warnings.filterwarnings("ignore")
+    at.logger.setLevel(logging.ERROR)
+    P = at.demo("tb_simple", do_run=False)
+    ps = P.progsets[0].copy()
+    key = next(k for k, c in ps.covouts.items() if len(c.progs) >= 1)
+    prog = list(ps.covouts[key].progs.keys())[0]
+    ps.covouts[key].progs[prog] = 0.0
+    ps.covouts[key].baseline = 0.5
+    other = next((k for k in ps.covouts if k != key), None)
+    if other is not None:
+        ps.covouts[other].baseline = 0.0
+    ps2 = at.ProgramSet.from_spreadsheet(ps.to_spreadsheet(), framework=P.framework, data=P.data)
+    bad = []
+    if ps2.covouts[key].progs.get(prog) != 0.0:
+        bad.append("outcome 0 of program %r for %r reads back as %r" % (prog, key, ps2.covouts[key].progs.get(prog)))
+    if other is not None and (other not in ps2.covouts or ps2.covouts[other].baseline != 0.0):
+        bad.append("baseline 0 of %r reads back as %r" % (other, ps2.covouts[other].baseline if other in ps2.covouts else "no entry"))
+    return dict(verdict="violates" if bad else "holds", detail="; ".join(bad) or "an outcome of 0 and a baseline of 0 read back as 0", prestate=dict(program_book="tb_simple", entry=list(key), program=prog))
+
+
+for _t in ("program_outcome", "baseline"):
+    CONTRACTS["programs:ProgramSet._read_effects#cell_%s" % _t]["replay_hook"] = _replay_zero_outcome
